@@ -236,6 +236,37 @@ static void run(int tier, long idx, vf_result *r)
 		break;
 	    }
 	}
+	/*
+	 * the same calibration applied to a device measured at fewer
+	 * frequencies than the calibration has: the top two, and the top
+	 * one alone
+	 */
+	for (int nsub = 1; nsub <= 2 && nsub < nf && r->status == VF_OK;
+		++nsub) {
+	    static cs_scenario sub;
+	    cs_c Sd[CS_MAXF][CS_MAXP * CS_MAXP];
+	    int arc;
+	    sub = sc;
+	    cs_make_vna_f(&sub.vna, types[t], rows, cols, nsub,
+		    &sc.vna.f[nf - nsub], sc.vna.variant);
+	    for (int f = 0; f < nsub; ++f)
+		cs_dut(&sub.vna, 1, f, Sd[f]);
+	    double e = cs_apply_error(vcp, ci2, &sub, Sd, &arc);
+	    ++r->transitions;
+	    if (arc != 0 || !(e <= 1e-8)) {
+		char sig[100];
+		snprintf(sig, sizeof(sig), "apply-subset:%s",
+			vnacal_type_to_name(types[t]));
+		vf_fail(r, sig, "applied at the top %d of the %d calibration "
+			"frequencies: vnacal_apply%s returned %d, corrected "
+			"S-parameters differ from the truth by %.3e%s%s",
+			nsub, nf, ab ? "" : "_m", arc, e,
+			elog.count ? ": " : "", elog.count ?
+			elog.msg[(elog.count - 1) % VF_ERRLOG_MAX] : "");
+	    }
+	    if (e > worst && arc == 0)
+		worst = e;
+	}
 	vf_outcome(r, "applied %s err%s", vnacal_type_to_name(types[t]),
 		worst < 1e-13 ? "<1e-13" : worst < 1e-11 ? "<1e-11" :
 		worst < 1e-9 ? "<1e-9" : worst <= 1e-8 ? "<=1e-8" : ">1e-8");
